@@ -302,8 +302,9 @@ def text(tree, R=None):
     for t in toks:
         if not prev:
             sep = ''
-        elif prev in '+-' and t in '+-' or (prev[-1:].isalnum() and t[:1].isalnum()):
-            sep = ' '                       # never build '++', '--' or glue words
+        elif prev in '+-' and t in '+-' or (prev[-1:].isalnum() and t[:1].isalnum()) \
+                or (prev[-1:] in 'eEpP' and prev[:1].isdigit() and t in '+-'):
+            sep = ' '                       # never build '++', '--', glue words, or the pp-number '0xE+7'
         elif R is None:
             sep = ' ' if (t in PREC or prev in PREC) and len(toks) > 2 else ''
         else:
